@@ -119,7 +119,7 @@ func gen(t *rapid.T) Case {
 	}
 	n := rapid.IntRange(1, 30).Draw(t, "nops")
 	for i := 0; i < n; i++ {
-		op := Op{K: rapid.SampledFrom([]string{"counter", "counter", "gauge", "timer", "vhist", "vhist", "dhist", "pass", "conflict"}).Draw(t, "k")}
+		op := Op{K: rapid.SampledFrom([]string{"counter", "counter", "gauge", "timer", "vhist", "vhist", "dhist", "pass", "conflict", "prereg"}).Draw(t, "k")}
 		op.N = rapid.IntRange(0, 1).Draw(t, "n")
 		op.S = rapid.IntRange(0, ns-1).Draw(t, "s")
 		switch op.K {
@@ -157,6 +157,11 @@ func gen(t *rapid.T) Case {
 			}
 		case "conflict":
 			op.What = rapid.SampledFrom(conflicts).Draw(t, "what")
+		case "prereg":
+			// pre-registration through the reporter's public Register* API with the tag keys listed
+			// in a generated order
+			op.What = rapid.SampledFrom([]string{"counter", "gauge", "timer"}).Draw(t, "prekind")
+			op.I = int64(rapid.IntRange(0, 1).Draw(t, "order"))
 		}
 		c.Ops = append(c.Ops, op)
 	}
@@ -229,6 +234,7 @@ func run(c Case) (pbt.Outcome, error) {
 		return model[fam][lk]
 	}
 	boundary, multi, cross := false, false, false
+	preregs := 0
 	nconf := 0
 	for oi, op := range c.Ops {
 		sc := scopes[op.S]
@@ -286,6 +292,22 @@ func run(c Case) (pbt.Outcome, error) {
 			}
 			s.dsamp = append(s.dsamp, op.I)
 			s.samples = append(s.samples, float64(op.I)/1e9) // only its count is used
+		case "prereg":
+			keys := []string{"a", "b"}
+			if op.I == 1 {
+				keys = []string{"b", "a"}
+			}
+			p = try(func() {
+				switch op.What {
+				case "counter":
+					_, _ = rep.RegisterCounter(fmt.Sprintf("c_%d", op.N), keys, "pre-registered")
+				case "gauge":
+					_, _ = rep.RegisterGauge(fmt.Sprintf("g_%d", op.N), keys, "pre-registered")
+				case "timer":
+					_, _ = rep.RegisterTimer(fmt.Sprintf("t_%d", op.N), keys, "pre-registered", nil)
+				}
+			})
+			preregs++
 		case "pass":
 			p = try(func() { tally.VerifReportOnce(root) })
 		case "conflict":
@@ -527,6 +549,9 @@ func run(c Case) (pbt.Outcome, error) {
 	if c.PanicCB {
 		out.Classes = append(out.Classes, "panicking-callback")
 	}
+	if preregs > 0 {
+		out.Classes = append(out.Classes, "pre-registered")
+	}
 	out.Classes = append(out.Classes, fmt.Sprintf("callback-errors>0=%v", len(cbErrs) > 0))
 	_ = nconf
 	return out, errs.Err()
@@ -535,7 +560,7 @@ func run(c Case) (pbt.Outcome, error) {
 func TestC17(t *testing.T) {
 	pbt.Main(t, pbt.Prop[Case]{
 		ID: "C17", Name: "prometheus",
-		Rule: "rapid-generated histories (1..30 ops) on a tally root whose cached reporter is the Prometheus reporter on a fresh registry (separator '_', Prometheus sanitizer; timers as summaries or histograms; error callback returning or panicking with a sentinel): counters (non-negative deltas), gauges (hostile float bits), timers, value and duration histograms with GENERATED strictly increasing finite specs (1..8 bounds from pools of decimals, huge/tiny magnitudes, one-ulp neighbours; durations ns..11 days incl. millisecond-granular bounds above 1 s) and samples on / one ulp or ns above and below / around the bounds, 1..4 tagged scopes with the same tag keys and different values, report passes, and conflict programs (a name reused for another kind: counter/gauge, timer/histogram, counter/timer, histogram/counter; or with other tag keys) whose result is then used through every method. Oracle after a final pass: Gather() shows counter == sum, gauge == last update (bits), cumulative bucket counts == #samples <= bound with bounds == spec (durations in seconds) and total == #samples, timer count == #values, one family per name and one series per tag-value combination; conflicts: the rejected registration reaches the error callback, the same request made on the reporter directly returns a non-nil usable metric, no panic other than the sentinel, at any point, and a rejected registration with other tag keys leaves the first, accepted family exposed with its values. Non-trivial: a sample equal to a bound, or >=2 series in a family, or a cross-kind/tag-key conflict. Distinct: FNV-64 of the case JSON.",
+		Rule: "rapid-generated histories (1..30 ops) on a tally root whose cached reporter is the Prometheus reporter on a fresh registry (separator '_', Prometheus sanitizer; timers as summaries or histograms; error callback returning or panicking with a sentinel): counters (non-negative deltas), gauges (hostile float bits), timers, value and duration histograms with GENERATED strictly increasing finite specs (1..8 bounds from pools of decimals, huge/tiny magnitudes, one-ulp neighbours; durations ns..11 days incl. millisecond-granular bounds above 1 s) and samples on / one ulp or ns above and below / around the bounds, 1..4 tagged scopes with the same tag keys and different values, report passes, pre-registration of counter/gauge/timer families through the reporter's Register* API with the tag keys in either order (before or after first use; values must be exposed as without it), and conflict programs (a name reused for another kind: counter/gauge, timer/histogram, counter/timer, histogram/counter; or with other tag keys) whose result is then used through every method. Oracle after a final pass: Gather() shows counter == sum, gauge == last update (bits), cumulative bucket counts == #samples <= bound with bounds == spec (durations in seconds) and total == #samples, timer count == #values, one family per name and one series per tag-value combination; conflicts: the rejected registration reaches the error callback, the same request made on the reporter directly returns a non-nil usable metric, no panic other than the sentinel, at any point, and a rejected registration with other tag keys leaves the first, accepted family exposed with its values. Non-trivial: a sample equal to a bound, or >=2 series in a family, or a cross-kind/tag-key conflict. Distinct: FNV-64 of the case JSON.",
 		Gen:  gen, Run: run,
 	})
 }
